@@ -266,6 +266,12 @@ func Born(name string) {
 	s.mu.Lock()
 	s.names[goid()] = name
 	s.mu.Unlock()
+	// A new goroutine parks at birth: several goroutines started in one step
+	// would otherwise race to their first blocking operation (e.g. the order
+	// in which pool workers queue up on a channel).
+	if s.active {
+		s.park("go:start", "start", nil)
+	}
 }
 
 // Go starts a named root goroutine (a node, or a helper of the harness).
